@@ -188,6 +188,9 @@ def plan_sim(program, knobs, rng, config, op_len):
         nact = rng.randint(2, 4)
         plan["assign"] = {i: rng.randrange(nact) for i in range(n)}
         plan["mean_q"] = int(round(2 ** rng.uniform(0, 6)))
+        if rng.random() < 0.3:
+            # PCT-style: priorities + d change points instead of the uniform random walk
+            plan["pct"] = {"d": rng.randint(1, 3), "est": 120 * max(1, n), "nact": nact}  # not the measured length: that depends on the hash seed
         if rng.random() < 0.25:
             cands = [i for i in range(n) if op_len.get(i, 0) > 4 and program[i]["op"] in SIM_OPS]
             if cands:
@@ -207,7 +210,12 @@ def plan_sim(program, knobs, rng, config, op_len):
 
 
 def run_sim(program, share_tables, plan, trace=None, rng=None):
-    dec = sched.ReplayDecider(trace) if trace is not None else sched.RandomDecider(rng, plan["mean_q"])
+    if trace is not None:
+        dec = sched.ReplayDecider(trace)
+    elif plan.get("pct"):
+        dec = sched.PCTDecider(rng, plan["pct"]["nact"], plan["pct"]["d"], plan["pct"]["est"])
+    else:
+        dec = sched.RandomDecider(rng, plan["mean_q"])
     assign = {int(k): v for k, v in plan["assign"].items()}
     env0 = None
     if plan.get("start"):
@@ -218,6 +226,17 @@ def run_sim(program, share_tables, plan, trace=None, rng=None):
                     env=env0)
     env = sim.run()
     return env, sim, dec.trace
+
+
+def plan_shape(plan):
+    """The part of a plan that does not depend on measured step counts (which vary with PYTHONHASHSEED)."""
+    if plan is None:
+        return None
+    return {"gran": plan.get("gran"), "assign": sorted((int(k), v) for k, v in plan.get("assign", {}).items()),
+            "faults": sorted((f["op"], f.get("kind")) for f in plan.get("faults", [])),
+            "op_faults": sorted((f["op"], f.get("kind")) for f in plan.get("op_faults", []) or []),
+            "stall": (plan["stall"]["actor"], plan["stall"]["op"]) if plan.get("stall") else None,
+            "pct": plan.get("pct"), "start": plan.get("start")}
 
 
 # ------------------------------------------------------------------ one run
@@ -310,7 +329,7 @@ def one_run(seed, run, force_config=None, overrides=None, max_diag=3):
     res["n_obs"] = n_obs
     # full digest: exact repeat under the same PYTHONHASHSEED; xdigest: what must also agree under another
     # hash seed (the library's own set iteration makes step counts, hence schedules, hash-seed dependent)
-    res["xdigest"] = runner.digest([program, config, plan, trail, sorted(res["fired"].items())])
+    res["xdigest"] = runner.digest([program, config, plan_shape(plan), trail, sorted(res["fired"])])
     res["digest"] = runner.digest([res["xdigest"], trace, res["steps"], res["schedule_hash"]])
     seen_sig = set()
     for victim, d in bad[:max_diag]:
